@@ -300,10 +300,28 @@ def generate():
     i4 = send.find('while byte_position')
     order_ok = 0 <= i1 < i2 < i3 < i4
     out.append(f"def shape_fdOrder : Bool := {'true' if order_ok else 'false'}  -- channels, regions, dedicated socket (last)")
-    # optional attachment limit in send (absent in the legacy code)
-    m = re.search(r'if\s+fds\.len\(\)\s*(>=|>)\s*MAX_FDS_IN_CMSG\s+as\s+usize', send)
-    mm = [x.start() for x in re.finditer(r'MAX_FDS_IN_CMSG', send)]
-    out.append(f"def sendChecksFdLimit : Bool := {'true' if mm else 'false'}")
+    # attachment limits in send: `if fds.len() [+ k] > MAX_FDS_IN_CMSG as usize { return Err(..) }`,
+    # the first before any transmission, the second immediately before the dedicated channel is created
+    def limit(m):
+        if not m:
+            return None
+        add = int(m.group(1) or 0)
+        op = {'>': '<', '>=': '≤'}[m.group(2)]
+        return f"decide (maxFdsInCmsg {op} nfds + {add})"
+    pat = r'if\s+fds\.len\(\)\s*(?:\+\s*(\d+)\s*)?(>=|>)\s*MAX_FDS_IN_CMSG\s+as\s+usize\s*\{\s*return\s+Err'
+    i_single = send.find('if data.len()')
+    i_chan = send.find('channel()?')
+    m1 = None
+    m2 = None
+    for m in re.finditer(pat, send):
+        if m.start() < i_single:
+            m1 = m
+        elif m.start() < i_chan:
+            m2 = m
+    out.append("/-- `send` refuses the message before transmitting anything -/")
+    out.append(f"def refuseAll (nfds : Nat) : Bool := {limit(m1) or 'false'}")
+    out.append("/-- `send` refuses to start a fragmented transfer (checked right before the dedicated socket pair is created) -/")
+    out.append(f"def refuseFrag (nfds : Nat) : Bool := {limit(m2) or 'false'}")
     out.append("")
     # recv
     rp, rr, recv = find_fn(unix, 'recv', 3) if False else (None, None, None)
